@@ -69,6 +69,7 @@ def base_cases():
         dict(name="init-error", expr=".a", flags=["-n"], content=b"a: 1\n", mode=0o644, cls="init"),
         dict(name="init-error-format", expr=".a", flags=["-o=nope"], content=b"a: 1\n", mode=0o644, cls="init"),
         dict(name="config-error", expr=".a", flags=["-p=shell"], content=b"a: 1\n", mode=0o644, cls="config_err"),
+        dict(name="eval-panic-or-error", expr=".[-5:1]", content=b"- 1\n- 2\n", mode=0o644),   # a Go panic at the pinned tree (C11)
         dict(name="no-result", expr="select(.a == 7)", content=b"a: 1\n", mode=0o644),
         dict(name="big-file", expr=".key0007 = 1", content=big, mode=0o444),
         dict(name="mode-755", expr="del(.b)", content=b"#!x\na: 1\nb: 2\n", mode=0o755),
@@ -371,7 +372,7 @@ def replay(rp):
         run = run_fault(root, shmroot, case, rp.get("cross", False), fault, rp.get("strace"))
         if rp.get("strace") and any(s.startswith("renameat") for s in rp["strace"]):
             run["rename_forced"] = True
-        if rp.get("strace") and any(s.startswith("unlinkat") for s in rp["strace"]):
+        if rp.get("strace") and any(s.startswith(("unlinkat", "fsync")) for s in rp["strace"]):
             run["unlink_forced"] = True
         pt, act = (fault.split(":") + [None])[:2] if fault else (None, None)
         return not oracle(case, info, run, pt, act, rp.get("cross", False))
@@ -425,7 +426,7 @@ def run(chk):
             r = run_fault(root, shmroot, cases[ci], cross, fault, inj)
             if inj and any(s.startswith("renameat") for s in inj):
                 r["rename_forced"] = True
-            if inj and any(s.startswith("unlinkat") for s in inj):
+            if inj and any(s.startswith(("unlinkat", "fsync")) for s in inj):
                 r["unlink_forced"] = True
             return r
         t0 = time.time()
